@@ -531,14 +531,18 @@ bool encode_array::push(const struct message &msg)
 			if (!tmp.clen--) {
 				break;
 			}
+			tmp.base = tmp.cont->iov_base;
+			tmp.used = tmp.cont->iov_len;
 			++tmp.cont;
 			continue;
 		}
 		ssize_t curr = mpt_array_push(this, tmp.used, tmp.base);
 		
-		if (curr < 0 || (size_t) curr > tmp.used) {
+		if (curr <= 0 || (size_t) curr > tmp.used) {
 			return false;
 		}
+		tmp.base = ((const uint8_t *) tmp.base) + curr;
+		tmp.used -= curr;
 	}
 	return true;
 }
